@@ -324,4 +324,139 @@ example : wwIsW_safe [7, 0, 0] 7 = true ∧ wwIsW_fast [7, 0, 1] 7 = false ∧
     wwIsRepW_safe [7, 7, 7] 7 = true ∧ wwIsRepW_fast [7, 7, 6] 7 = false ∧
     wwIsRepW_safe [] 1 = false := by decide
 
+/-! ## SAFE(uNNCLZ) / SAFE(uNNCTZ) at 32 and 64 bits, all words; hence the sizes in the DEFAULT build
+(wordCLZ / wordCTZ = SAFE editions) at 32- and 64-bit words, unconditionally -/
+
+theorem u32CLZ_safe_spec (x : Nat) (hx : x < 2 ^ 32) : ClzSpec 32 x (u32CLZ_safe x) :=
+  Bits.u32CLZ_safe_gen x hx
+theorem u64CLZ_safe_spec (x : Nat) (hx : x < 2 ^ 64) : ClzSpec 64 x (u64CLZ_safe x) :=
+  Bits.u64CLZ_safe_gen x hx
+theorem u32CTZ_safe_spec (x : Nat) (hx : x < 2 ^ 32) : CtzSpec 32 x (u32CTZ_safe x) :=
+  Bits.u32CTZ_safe_gen x hx
+theorem u64CTZ_safe_spec (x : Nat) (hx : x < 2 ^ 64) : CtzSpec 64 x (u64CTZ_safe x) :=
+  Bits.u64CTZ_safe_gen x hx
+
+example : u32CLZ_safe 0x00012345 = 15 ∧ u64CLZ_safe 1 = 63 ∧ u32CTZ_safe 0x00A00000 = 21 ∧
+    u64CTZ_safe 0x8000000000000000 = 63 ∧ u64CTZ_safe 0 = 64 ∧ u32CLZ_safe 0 = 32 := by decide
+
+theorem wwSizes32_spec (a : List Nat) (h : Wf 32 a) :
+    (val 32 a < 2 ^ wwBitSize 32 a ∧ (0 < wwBitSize 32 a → 2 ^ (wwBitSize 32 a - 1) ≤ val 32 a) ∧
+      wwHiZeroBits 32 a + wwBitSize 32 a = 32 * a.length) ∧
+    ((∀ k, k < wwLoZeroBits 32 a → (val 32 a).testBit k = false) ∧
+      (wwLoZeroBits 32 a < 32 * a.length → (val 32 a).testBit (wwLoZeroBits 32 a) = true)) := by
+  have h1 : ClzOK 32 (wordCLZ_safe 32) :=
+    ClzOK_of_spec (fun x hx => by
+      have : wordCLZ_safe 32 x = u32CLZ_safe x := by simp [wordCLZ_safe]
+      rw [this]; exact Bits.u32CLZ_safe_gen x hx)
+  have h2 : CtzOK 32 (wordCTZ_safe 32) :=
+    CtzOK_of_spec (fun x hx => by
+      have : wordCTZ_safe 32 x = u32CTZ_safe x := by simp [wordCTZ_safe]
+      rw [this]; exact Bits.u32CTZ_safe_gen x hx)
+  exact ⟨(wwBitSize_gen (by decide) _ h1 a h).2, (wwLoZeroBits_gen (by decide) _ h2 a h).2⟩
+
+theorem wwSizes64_spec (a : List Nat) (h : Wf 64 a) :
+    (val 64 a < 2 ^ wwBitSize 64 a ∧ (0 < wwBitSize 64 a → 2 ^ (wwBitSize 64 a - 1) ≤ val 64 a) ∧
+      wwHiZeroBits 64 a + wwBitSize 64 a = 64 * a.length) ∧
+    ((∀ k, k < wwLoZeroBits 64 a → (val 64 a).testBit k = false) ∧
+      (wwLoZeroBits 64 a < 64 * a.length → (val 64 a).testBit (wwLoZeroBits 64 a) = true)) := by
+  have h1 : ClzOK 64 (wordCLZ_safe 64) :=
+    ClzOK_of_spec (fun x hx => by
+      have : wordCLZ_safe 64 x = u64CLZ_safe x := by simp [wordCLZ_safe]
+      rw [this]; exact Bits.u64CLZ_safe_gen x hx)
+  have h2 : CtzOK 64 (wordCTZ_safe 64) :=
+    CtzOK_of_spec (fun x hx => by
+      have : wordCTZ_safe 64 x = u64CTZ_safe x := by simp [wordCTZ_safe]
+      rw [this]; exact Bits.u64CTZ_safe_gen x hx)
+  exact ⟨(wwBitSize_gen (by decide) _ h1 a h).2, (wwLoZeroBits_gen (by decide) _ h2 a h).2⟩
+
+example : wwBitSize 64 [0, 0x10, 0] = 69 ∧ wwLoZeroBits 64 [0, 0x10, 0] = 68 ∧
+    wwHiZeroBits 64 [0, 0x10, 0] = 123 ∧ wwBitSize 32 [0xFFFFFFFF, 1] = 33 := by decide
+
+/-! ## shifts with carry word (any n, any shift) -/
+
+/-- wwShLoCarry: with V = ⟦a⟧ + carry·2^(n·w) (the carry word on top),
+    ⟦a⟧ ← ⌊V / 2^shift⌋ mod 2^(n·w), and the returned word consists of the w bits of V just below
+    position `shift` (⌊V·2^w / 2^shift⌋ mod 2^w). -/
+theorem wwShLoCarry_spec {w : Nat} (hw : 0 < w) (a : List Nat) (shift carry : Nat) (h : Wf w a)
+    (hc : carry < 2 ^ w) :
+    (wwShLoCarry w a shift carry).1.length = a.length ∧ Wf w (wwShLoCarry w a shift carry).1 ∧
+    val w (wwShLoCarry w a shift carry).1 =
+      ((val w a + carry * 2 ^ (w * a.length)) / 2 ^ shift) % 2 ^ (w * a.length) ∧
+    (wwShLoCarry w a shift carry).2 =
+      ((val w a + carry * 2 ^ (w * a.length)) * 2 ^ w / 2 ^ shift) % 2 ^ w :=
+  Bits.wwShLoCarry_val hw a shift carry h hc
+
+example : wwShLoCarry 8 [0x34, 0x12, 0xAB] 12 0xCD = ([0xB1, 0xDA, 0x0C], 0x23) ∧
+    wwShLoCarry 8 [0x34, 0x12] 1 1 = ([0x1A, 0x89], 0) ∧
+    wwShLoCarry 8 [0x34, 0x12] 27 0xFF = ([0, 0], 0x1F) := by decide
+
+/-- wwShHiCarry: with V = carry + ⟦a⟧·2^w (the carry word below),
+    ⟦a⟧ ← ⌊V·2^shift / 2^w⌋ mod 2^(n·w), and the returned word consists of the w bits pushed out
+    last at the top (⌊V·2^shift / 2^((n+1)·w)⌋ mod 2^w). -/
+theorem wwShHiCarry_spec {w : Nat} (hw : 0 < w) (a : List Nat) (shift carry : Nat) (h : Wf w a)
+    (hc : carry < 2 ^ w) :
+    (wwShHiCarry w a shift carry).1.length = a.length ∧ Wf w (wwShHiCarry w a shift carry).1 ∧
+    val w (wwShHiCarry w a shift carry).1 =
+      ((carry + val w a * 2 ^ w) * 2 ^ shift / 2 ^ w) % 2 ^ (w * a.length) ∧
+    (wwShHiCarry w a shift carry).2 =
+      ((carry + val w a * 2 ^ w) * 2 ^ shift / 2 ^ (w * (a.length + 1))) % 2 ^ w :=
+  Bits.wwShHiCarry_val hw a shift carry h hc
+
+example : wwShHiCarry 8 [0x34, 0x12, 0xAB] 12 0xCD = ([0xD0, 0x4C, 0x23], 0xB1) ∧
+    wwShHiCarry 8 [0x34, 0x12] 1 0x80 = ([0x69, 0x24], 0) ∧
+    wwShHiCarry 8 [0x34, 0x12] 27 0xFF = ([0, 0], 0xF8) := by decide
+
+/-- wwOctetSize (w = 8·O, O = O_PER_W ≥ 1): r with ⟦a⟧ < 2^(8r) and (r > 0 → 2^(8(r−1)) ≤ ⟦a⟧),
+    i.e. the index of the last non-zero octet + 1 (0 for the zero number) -/
+theorem wwOctetSize_spec {w : Nat} (O : Nat) (hO : 0 < O) (hw8 : w = 8 * O) (a : List Nat)
+    (h : Wf w a) :
+    val w a < 2 ^ (8 * wwOctetSize w a) ∧
+    (0 < wwOctetSize w a → 2 ^ (8 * (wwOctetSize w a - 1)) ≤ val w a) ∧
+    wwOctetSize w a ≤ O * a.length :=
+  Bits.wwOctetSize_gen O hO hw8 a h
+
+example : wwOctetSize 32 [0xFFFFFFFF, 0x00010000, 0] = 7 ∧ wwOctetSize 64 [0, 0] = 0 ∧
+    wwOctetSize 16 [0, 0x00FF] = 3 := by decide
+
+/-! ## u32Parity / u64Parity: all words (the folding `w ^= w >> 2^k` XORs all bits into bit 0) -/
+
+theorem u32Parity_spec (x : Nat) : u32Parity x = popN 32 x % 2 := Bits.u32Parity_gen x
+theorem u64Parity_spec (x : Nat) : u64Parity x = popN 64 x % 2 := Bits.u64Parity_gen x
+
+example : u32Parity 0x80000001 = 0 ∧ u32Parity 0x00010101 = 1 ∧ popN 32 0x00010101 = 3 ∧
+    u64Parity 0xFFFFFFFFFFFFFFFE = 1 := by decide
+
+/-! ## u32/u64 Shuffle and Deshuffle: all words -/
+
+/-- uNNDeshuffle and uNNShuffle are mutually inverse (every stage
+    `t = (w ^ (w >> s)) & m, w ^= t ^ (t << s)` is an involution, Deshuffle runs the stages backwards) -/
+theorem u32Deshuffle_Shuffle (x : Nat) :
+    u32Deshuffle (u32Shuffle x) = x ∧ u32Shuffle (u32Deshuffle x) = x :=
+  ⟨Bits.u32Deshuffle_Shuffle_gen x, Bits.u32Shuffle_Deshuffle_gen x⟩
+theorem u64Deshuffle_Shuffle (x : Nat) :
+    u64Deshuffle (u64Shuffle x) = x ∧ u64Shuffle (u64Deshuffle x) = x :=
+  ⟨Bits.u64Deshuffle_Shuffle_gen x, Bits.u64Shuffle_Deshuffle_gen x⟩
+
+/-- uNNShuffle: bit i of the low half → bit 2i, bit i of the high half → bit 2i + 1 -/
+theorem u32Shuffle_spec (x : Nat) (hx : x < 2 ^ 32) :
+    u32Shuffle x = shufN 16 (x % 2 ^ 16) (x / 2 ^ 16) := Bits.u32Shuffle_gen x hx
+theorem u64Shuffle_spec (x : Nat) (hx : x < 2 ^ 64) :
+    u64Shuffle x = shufN 32 (x % 2 ^ 32) (x / 2 ^ 32) := Bits.u64Shuffle_gen x hx
+
+example : u32Shuffle 0xFFFF0000 = 0xAAAAAAAA ∧ u32Deshuffle 0xAAAAAAAA = 0xFFFF0000 ∧
+    u64Shuffle 0x00000000FFFFFFFF = 0x5555555555555555 ∧ shufN 16 0 0xFFFF = 0xAAAAAAAA := by decide
+
+/-! ## u32/u64 Rev and Bitrev: all words -/
+
+/-- uNNRev reverses the octets (`octRevN k`: octet i goes to octet k − 1 − i) -/
+theorem u32Rev_spec (x : Nat) (hx : x < 2 ^ 32) : u32Rev x = octRevN 4 x := Bits.u32Rev_gen x hx
+theorem u64Rev_spec (x : Nat) (hx : x < 2 ^ 64) : u64Rev x = octRevN 8 x := Bits.u64Rev_gen x hx
+/-- uNNBitrev reverses the bits (`bitrevN k`: bit i goes to bit k − 1 − i) -/
+theorem u32Bitrev_spec (x : Nat) : u32Bitrev x = bitrevN 32 x := Bits.u32Bitrev_gen x
+theorem u64Bitrev_spec (x : Nat) : u64Bitrev x = bitrevN 64 x := Bits.u64Bitrev_gen x
+
+example : u32Rev 0x12345678 = 0x78563412 ∧ octRevN 4 0x12345678 = 0x78563412 ∧
+    u64Rev 0x0102030405060708 = 0x0807060504030201 ∧ u32Bitrev 0x00000001 = 0x80000000 ∧
+    u64Bitrev 0x8000000000000001 = 0x8000000000000001 ∧ bitrevN 32 6 = 0x60000000 := by decide
+
 end Bee2V.C05
